@@ -80,7 +80,8 @@ for f, fn in targets:
         miss += len(gaps)
         if gaps and (fn is not None or len(gaps) < n):
             print("%s:%s  %d of %d blocks never executed" % (f, name, len(gaps), n))
-            for k in gaps[:12]:
+            shown = [k for k in gaps if not re.match(r"(\)?; )?(if )?err [!=]= nil", lines[k[1] - 1].strip())]
+            for k in shown[:int(os.environ.get("COVERGAPS_MAX", "40"))]:
                 print("    %5d-%-5d %s" % (k[1], k[2], lines[k[1] - 1].strip()[:110]))
 print("anchor blocks: %d, never executed by %s %s: %d" % (total, pid, tier, miss))
 subprocess.run(["rm", "-rf", cov])
